@@ -80,6 +80,21 @@ ADDED.update({
     "w6_C16": "two lysines hydrogen-bonded at 3.2 A (iterative base-base pair with a side-chain term)",
     "w6_C17": "a chain whose first residue shares its number with the insertion-coded residues after it",
 })
+ADDED.update({
+    "w7_C01": "ions under their wwPDB atom names (FE2 -> FE, IOD -> I), always in the quick selection",
+    "w7_C02": "a chain that ends in an acid (side chain and C-terminus: two groups of one type in one residue)",
+    "w7_C03": "content behind a UTF-8 byte-order mark, by path and by stream",
+    "w7_C04": "an NH2 group whose N-C(sp2) bond lies exactly along x (align_to_axis + snap)",
+    "w7_C05": "the intact part sitting around the coordinate origin",
+    "w7_C06": "inter-chain disulfide between cysteines with the same residue number",
+    "w7_C08": "a disulfide that exists in one alternate location only",
+    "w7_C09": "grids finer than two decimals (0.125, 0.025); group charges evaluated at the pH each charge row reports",
+    "w7_C11": "equal serial numbers in one of the three replays of every placement",
+    "w7_C13": "several chains selected in the reverse of the file order (also all of them)",
+    "w7_C14": "a free cysteine hydrogen-bonded to a lysine of another chain (partner of a listed residue)",
+    "w7_C16": "chains truncated to start at a free cysteine / aspartate / histidine",
+    "w7_C17": "the program's own hydrogens supplied under the old naming convention (digit first), not kept",
+})
 ROUND = {"C": 1, "w2": 2, "w3": 3, "w4": 4, "w5": 5, "w6": 6, "w7": 7}
 
 
